@@ -20,7 +20,7 @@ ASSUMPTIONS = ["score(X) is compared with the naive reference GEMINI of predict_
                "for ints) are not generated"]
 EVAL_COUNTER = "fits"
 REQUIRED = {"quick": dict({"fits": 500, "contracts_complete": 450, "score_vs_reference": 150, "list_input": 40,
-                           "int_input": 40, "float32_input": 40, "fortran_input": 40, "strided_input": 40, "k_equals_one": 15, "k_equals_n": 10, "douglas_long_fits": 50, "score_after_inplace_refresh_checked": 40,
+                           "int_input": 40, "float32_input": 40, "fortran_input": 40, "strided_input": 40, "readonly_input": 40, "k_equals_one": 15, "k_equals_n": 10, "douglas_long_fits": 50, "score_after_inplace_refresh_checked": 40,
                            "douglas_long_cut_points_out_of_order": 8},
                           **{"fit:" + e: 12 for e in gen.ESTIMATORS}),
             "thorough": dict({"fits": 10000, "contracts_complete": 9000}, **{"fit:" + e: 300 for e in gen.ESTIMATORS})}
@@ -123,13 +123,24 @@ def run_case(case, ctx, st):
             n = params["min_samples_leaf"] + int(rng.integers(0, 5))
             X = gen.make_data(rng, n, d, kind)
     y = gen.precomputed_for(rng, pre, n)
-    form = ["float", "float", "int", "list", "float32", "fortran", "strided"][int(rng.integers(0, 7))]
+    form = ["float", "float", "int", "list", "float32", "fortran", "strided", "readonly"][int(rng.integers(0, 8))]
     Xin = X
     if form == "float32":
         # single-precision training data (what most loaders and every GPU pipeline hand over): exactly representable in
         # double precision, so the reference works on the very same numbers
         Xin = X.astype(np.float32)
         X = Xin.astype(np.float64)
+    elif form == "readonly" and any("chi2" in str(v) for v in params.values()):
+        # scikit-learn's own chi2 / additive_chi2 kernels refuse read-only buffers (sklearn 1.9.1: "buffer source array is
+        # read-only" from chi2_kernel itself): not a configuration the library could serve
+        form = "float"
+    elif form == "readonly":
+        # what joblib's memory-mapping hands to a worker: the caller's buffers cannot be written to
+        Xin = np.array(X, copy=True)
+        Xin.flags.writeable = False
+        if y is not None:
+            y = np.array(y, copy=True)
+            y.flags.writeable = False
     elif form == "fortran":
         Xin = np.asfortranarray(X)
     elif form == "strided":
@@ -153,7 +164,7 @@ def run_case(case, ctx, st):
         ctx.count("list_input")
     if form == "int":
         ctx.count("int_input")
-    if form in ("float32", "fortran", "strided"):
+    if form in ("float32", "fortran", "strided", "readonly"):
         ctx.count(form + "_input")
     if K == 1:
         ctx.count("k_equals_one")
